@@ -34,10 +34,11 @@ type Emitter struct {
 	marks  []int
 	nfresh int
 	nodes  int
+	fpOf   map[*Term]string // bits variable -> name of its FP-sorted twin
 }
 
 func NewEmitter(mode Lowering) *Emitter {
-	return &Emitter{mode: mode, names: map[*Term]string{}}
+	return &Emitter{mode: mode, names: map[*Term]string{}, fpOf: map[*Term]string{}}
 }
 
 func (e *Emitter) Push() { e.marks = append(e.marks, len(e.log)) }
@@ -119,6 +120,9 @@ func (e *Emitter) Name(t *Term) string {
 		if e.mode == LInt && t.Sort.K == KInt {
 			fmt.Fprintf(&e.buf, "(assert (and (<= %s %s) (<= %s %s)))\n", intLit(t.Sort.Min()), n, n, intLit(t.Sort.Max()))
 		}
+		if fn, ok := e.fpOf[t]; ok {
+			e.linkFP(t, n, fn)
+		}
 	case OFBits:
 		f := e.Name(t.Args[0])
 		e.nfresh++
@@ -133,6 +137,27 @@ func (e *Emitter) Name(t *Term) string {
 			fmt.Fprintf(&e.buf, "(assert (= ((_ to_fp %d %d) ((_ int2bv %d) %s)) %s))\n", eb, sb, t.Sort.W, n, f)
 		}
 	default:
+		if t.Op == OFFromBits && t.Args[0].Op == OVar {
+			// float input: an FP-sorted constant; tied to the integer bit pattern only if the
+			// pattern itself is ever needed by the solver
+			v := t.Args[0]
+			fn, ok := e.fpOf[v]
+			if !ok {
+				fn = "f" + smtName(v.Name)
+				if strings.HasPrefix(smtName(v.Name), "|") {
+					fn = "|f." + strings.Trim(smtName(v.Name), "|") + "|"
+				}
+				fmt.Fprintf(&e.buf, "(declare-const %s %s)\n", fn, e.sortName(t.Sort))
+				e.fpOf[v] = fn
+				if vn, ok := e.names[v]; ok {
+					e.linkFP(v, vn, fn)
+				}
+			}
+			e.nodes++
+			e.names[t] = fn
+			e.log = append(e.log, t)
+			return fn
+		}
 		var expr string
 		if t.Sort.K == KInt {
 			if e.mode == LBV {
@@ -150,6 +175,18 @@ func (e *Emitter) Name(t *Term) string {
 	e.names[t] = n
 	e.log = append(e.log, t)
 	return n
+}
+
+func (e *Emitter) linkFP(v *Term, vn, fn string) {
+	eb, sb := 11, 53
+	if v.Sort.W == 32 {
+		eb, sb = 8, 24
+	}
+	if e.mode == LBV {
+		fmt.Fprintf(&e.buf, "(assert (= ((_ to_fp %d %d) %s) %s))\n", eb, sb, vn, fn)
+	} else {
+		fmt.Fprintf(&e.buf, "(assert (= ((_ to_fp %d %d) ((_ int2bv %d) %s)) %s))\n", eb, sb, v.Sort.W, vn, fn)
+	}
 }
 
 func (e *Emitter) constLit(t *Term) string {
